@@ -8,7 +8,7 @@ from ..absint import Client, Ctx, Interp
 from ..flow import Flow
 from ..model import AnalysisError, Cls, Func, Program, walk_own
 from ..report import Report
-from ..resolve import const_value, dotted
+from ..resolve import const_value, dotted, kwarg
 from ..util import calls_in, returns_of, src
 from .c01 import _incs_of, _yield_all_of, param_used_only_for_iteration
 from .poolfam import chunking_idiom, queue_call, tag_pass_through
@@ -54,6 +54,54 @@ def run(prog: Program, rep: Report):
     rep.attempt(lambda: r7_input(prog, rep, fm, mp))
     from .ownership import rule_no_class_state
     rep.attempt(lambda: rule_no_class_state(prog, rep, "C05.R8", [fm, fw, fr]))
+    rep.attempt(lambda: r9_results_buffered(prog, rep, fm, fr, mp))
+
+
+def r9_results_buffered(prog, rep: Report, fm: Cls, fr: Cls, mp: Func):
+    """the producer blocks in put() on the bounded work queue while the workers deliver results; that is only free of a cyclic wait
+    when a worker's put of a result never waits for the producer: an unbounded multiprocessing.Queue() (its feeder thread takes the
+    item at once).  A SimpleQueue / Pipe writes into the OS pipe synchronously, a bounded Queue(n) fills up."""
+    rep.rule("C05.R9", "results never block a worker: the queue the workers put results on is built by `Queue()` without a bound (a "
+             "feeder thread buffers every item); a SimpleQueue / Pipe (synchronous pipe write) or a bounded results queue lets every "
+             "worker wait in put() for the producer, which waits in put() on the bounded work queue", floor=2)
+    sites = []
+    call = prog.method(fm, "__call__")
+    init = prog.resolve(fm, "__init__")
+    got = {dotted(c.func.value)[1] for c in calls_in(call.node) if queue_call(c) and queue_call(c)[0] == "get"
+           and dotted(c.func.value) and len(dotted(c.func.value)) == 2 and dotted(c.func.value)[0] == call.self_name}
+    if init is not None:
+        from ..util import iter_stores
+        for t, v, st in iter_stores(init.node):
+            d = dotted(t)
+            if d and len(d) == 2 and d[0] == init.self_name and d[1] in got and v is not None:
+                sites.append((init, f"results-queue:{fm.name}.{d[1]}", v, st.lineno))
+    got_c = {dotted(c.func.value)[-1] for c in calls_in(mp.node) if queue_call(c) and queue_call(c)[0] == "get" and dotted(c.func.value)
+             and len(dotted(c.func.value)) == 2 and dotted(c.func.value)[0] == fr.name.split(".")[-1]}
+    for st in fr.node.body:
+        if isinstance(st, ast.Assign) and len(st.targets) == 1 and isinstance(st.targets[0], ast.Name) and st.targets[0].id in got_c:
+            anchor = prog.resolve(fr, "run") or next(iter(fr.methods.values()))
+            sites.append((anchor, f"results-queue:{fr.name}.{st.targets[0].id}", st.value, st.lineno))
+    if not sites:
+        rep.unrec("C05.R9", call, "results-queue", "where the results queues are constructed was not found")
+        return
+    for f, role, v, line in sites:
+        rep.fn(f)
+        name = src(v.func).split(".")[-1] if isinstance(v, ast.Call) else ""
+        bound = None
+        if isinstance(v, ast.Call):
+            bound = kwarg(v, "maxsize", 0)
+        if name in ("SimpleQueue", "Pipe"):
+            rep.viol("C05.R9", f, role, f"the results queue is `{src(v)}`: its put() writes into the OS pipe synchronously and blocks once the "
+                     "pipe is full", line=line,
+                     scenario="results larger than the pipe capacity (~64 KiB per chunk): every worker waits in put() for the producer, the "
+                              "producer waits in put() on the full work queue: the call never returns")
+        elif name in ("Queue", "JoinableQueue") and bound is not None and not (isinstance(const_value(bound, None), int) and const_value(bound, None) <= 0):
+            rep.viol("C05.R9", f, role, f"the results queue is bounded (`{src(v)}`): a worker's put() waits for the producer once it is full",
+                     line=line, scenario="more finished chunks than the bound while the producer waits on the full work queue: cyclic wait")
+        elif name in ("Queue", "JoinableQueue"):
+            rep.ok("C05.R9", f, role, f"`{src(v)}`: unbounded, buffered by the queue's feeder thread")
+        else:
+            rep.unrec("C05.R9", f, role, f"the results queue is built by `{src(v)}`: whether its put() can wait is not read", line)
 
 
 def r1_tags(prog, rep: Report, fw: Cls, fr: Cls):
@@ -123,8 +171,27 @@ def r2_accounting(prog, rep: Report, fm: Cls, mp: Func):
         i_name, c_name = (src(x) for x in sl.target.elts) if isinstance(sl.target, ast.Tuple) else ("?", "?")
         puts = [st for st in sl.body if isinstance(st, ast.Expr) and isinstance(st.value, ast.Call) and queue_call(st.value)
                 and queue_call(st.value)[0] == "put"]
-        if len(puts) != 1 or src(puts[0].value.args[0]) != f"({i_name}, {c_name})":
-            probs.append(f"the send loop does not put exactly ({i_name}, {c_name}) once per chunk")
+        unknown = []
+        start = kwarg(sl.iter, "start", 1)
+        start_v = 0 if start is None else const_value(start, None)
+        if len(puts) > 1:
+            probs.append(f"the send loop puts {len(puts)} times per chunk")
+        elif not puts:
+            unknown.append("no put at the top level of the send loop")
+        else:
+            a = puts[0].value.args[0] if puts[0].value.args else None
+            if not (isinstance(a, ast.Tuple) and len(a.elts) == 2):
+                unknown.append(f"the send loop puts `{src(a) if a is not None else ''}`, not an (index, chunk) pair")
+            elif src(a.elts[1]) != c_name:
+                probs.append(f"the send loop does not put exactly ({i_name}, {c_name}) once per chunk")
+            elif src(a.elts[0]) == i_name and start_v == 0:
+                pass
+            elif isinstance(start_v, int) and start_v > 0 and src(a.elts[0]) in (f"{i_name} - {start_v}",):
+                pass                                     # enumerate(..., start=k) with the tag i - k: the same 0-based positions
+            elif src(a.elts[0]) == i_name:
+                probs.append(f"the send loop does not put exactly ({i_name}, {c_name}) once per chunk (positions start at {src(start)})")
+            else:
+                unknown.append(f"the position put with a chunk is `{src(a.elts[0])}`")
         sent = None
         for k, st in enumerate(sl.body):
             if isinstance(st, ast.AugAssign) and isinstance(st.target, ast.Name) and isinstance(st.op, ast.Add) and const_value(st.value) == 1:
@@ -132,9 +199,20 @@ def r2_accounting(prog, rep: Report, fm: Cls, mp: Func):
                 if not (puts and sl.body.index(puts[0]) < k):
                     probs.append("the sent counter is incremented before the put")
         if sent is None:
-            probs.append("no `sent += 1` at the top level of the send loop")
-        rep.check("C05.R2", f, "send", not probs, f"put(({i_name}, {c_name})) then {sent} += 1, once per chunk", "; ".join(probs),
-                  scenario="a chunk is sent but not counted: its results are never waited for and are lost", line=sl.lineno)
+            # for sent, chunk in enumerate(chunks, start=1): the loop variable is the count (0 before the loop for empty input)
+            zero_before = any(isinstance(z, ast.Assign) and isinstance(z.targets[0], ast.Name) and z.targets[0].id == i_name
+                              and const_value(z.value, None) == 0 and z.lineno < sl.lineno for z in f.node.body)
+            if start_v == 1 and zero_before:
+                sent = i_name
+            elif start_v == 0 and not any(isinstance(st, (ast.AugAssign, ast.Assign)) for st in sl.body):
+                probs.append("no `sent += 1` at the top level of the send loop")
+            else:
+                unknown.append("how the number of sent chunks is counted")
+        if unknown and not probs:
+            rep.unrec("C05.R2", f, "send", "; ".join(unknown) + ": not read", sl.lineno)
+        else:
+            rep.check("C05.R2", f, "send", not probs, f"put(({i_name}, {c_name})) then {sent} += 1, once per chunk", "; ".join(probs),
+                      scenario="a chunk is sent but not counted: its results are never waited for and are lost", line=sl.lineno)
     # emit loops
     buf_names = {n.targets[0].id for n in f.node.body if isinstance(n, ast.Assign) and isinstance(n.targets[0], ast.Name)
                  and isinstance(n.value, ast.Call) and isinstance(n.value.func, ast.Name)
@@ -271,6 +349,11 @@ def r3_owed(prog, rep: Report, fm: Cls, mp: Func):
                     rep.ok("C05.R3", f, "get:blocking", f"blocking get once per owed result: `for _ in {src(p.iter)}`")
                     continue
                 owed = lp is not None and _owed_test(lp.test, f)
+                if lp is not None and owed is None and not (isinstance(lp.test, ast.Constant) and lp.test.value is True):
+                    rep.unrec("C05.R3", f, "get:blocking", f"blocking get under `while {src(lp.test)}`: the test does not compare with the "
+                              "counter of sent chunks; how it bounds the waiting is not read", c.lineno)
+                    continue
+                owed = bool(owed)
                 rep.check("C05.R3", f, f"get:blocking", owed, f"blocking get under `while {src(lp.test) if lp is not None else '?'}`",
                           "a blocking get on the results queue is not guarded by `finished < sent`: it waits for a result nobody owes",
                           scenario="input shorter than expected / empty input: the call blocks forever in get()", line=c.lineno)
@@ -284,10 +367,17 @@ def r3_owed(prog, rep: Report, fm: Cls, mp: Func):
                           line=c.lineno)
 
 
-def _owed_test(test, f: Func) -> bool:
-    """`finished < sent` in either orientation (or !=), where `sent` is the counter incremented next to the work puts"""
+def _owed_test(test, f: Func):
+    """`finished < sent` in either orientation (or !=), where `sent` is the counter incremented next to the work puts: True;
+    a comparison with the sent counter that also holds when both sides are equal (nothing owed): False; a test that does not mention
+    the sent counter: None (how it bounds the waiting is not read)"""
+    _FLIP = {ast.Lt: ast.GtE, ast.GtE: ast.Lt, ast.Gt: ast.LtE, ast.LtE: ast.Gt, ast.Eq: ast.NotEq, ast.NotEq: ast.Eq}
+    if isinstance(test, ast.UnaryOp) and isinstance(test.op, ast.Not) and isinstance(test.operand, ast.Compare) \
+            and len(test.operand.ops) == 1 and type(test.operand.ops[0]) in _FLIP:
+        c0 = test.operand                      # two counts: the negation is the flipped comparison
+        test = ast.copy_location(ast.Compare(left=c0.left, ops=[_FLIP[type(c0.ops[0])]()], comparators=c0.comparators), test)
     if not (isinstance(test, ast.Compare) and len(test.ops) == 1):
-        return False
+        return None
     sent = set()
     for n in ast.walk(f.node):
         if isinstance(n, ast.For):
@@ -301,12 +391,16 @@ def _owed_test(test, f: Func) -> bool:
                             and isinstance(n.iter, ast.Call) and src(n.iter.func) == "enumerate" \
                             and src(st.value) in (f"{src(n.target.elts[0])} + 1", f"1 + {src(n.target.elts[0])}"):
                         sent.add(st.targets[0].id)
+                # for sent, chunk in enumerate(chunks, start=1): the loop variable counts the puts
+                if isinstance(n.target, ast.Tuple) and isinstance(n.iter, ast.Call) and src(n.iter.func) == "enumerate" \
+                        and const_value(kwarg(n.iter, "start", 1), None) == 1 and isinstance(n.target.elts[0], ast.Name):
+                    sent.add(n.target.elts[0].id)
     l, r, op = test.left, test.comparators[0], test.ops[0]
-    if isinstance(r, ast.Name) and r.id in sent and isinstance(op, (ast.Lt, ast.NotEq)):
-        return True
-    if isinstance(l, ast.Name) and l.id in sent and isinstance(op, (ast.Gt, ast.NotEq)):
-        return True
-    return False
+    if isinstance(r, ast.Name) and r.id in sent:
+        return isinstance(op, (ast.Lt, ast.NotEq))
+    if isinstance(l, ast.Name) and l.id in sent:
+        return isinstance(op, (ast.Gt, ast.NotEq))
+    return None
 
 
 def r4_sorted(prog, rep: Report, mp: Func):
